@@ -1803,6 +1803,23 @@ impl Element {
                     }
                 }
             }
+
+            // check the compatibility of the character data of this element
+            if let Some(value_spec) = elemtype_new.chardata_spec() {
+                for content_item in &element.content {
+                    if let ElementContent::CharacterData(cdata) = content_item {
+                        let (is_compatible, value_version_mask) =
+                            cdata.check_version_compatibility(value_spec, target_version);
+                        if !is_compatible {
+                            compat_errors.push(CompatibilityError::IncompatibleElement {
+                                element: self.clone(),
+                                version_mask: value_version_mask,
+                            });
+                        }
+                        overall_version_mask &= value_version_mask;
+                    }
+                }
+            }
         }
 
         // check the compatibility of all sub-elements
